@@ -371,6 +371,14 @@ ConfVar(op, a, o) ==
              same(x) == WFLax(x) /\ LaxIsStrict(x) /\ Iso(LaxToPlain(x), LaxToPlain(t)) IN
          IF Leaks(a.script) THEN IsErr(o) /\ same(o.val)          \* the shared state is handed back
          ELSE IsOk(o) /\ same(o.val)
+    [] op = "var.script_eval" ->
+         \* end to end: the built expression, forgotten and evaluated, computes the expression
+         LET t == VBuild(a.script, a.srcs, a.tgts)  f == Strictify(t)  r == ForgetRef(f, FALSE) IN
+         /\ IsVal(o) /\ o.val.built.tag = "ok"
+         /\ WFLax(o.val.built.val) /\ Iso(LaxToPlain(o.val.built.val), LaxToPlain(t))
+         /\ WFLax(o.val.forgot) /\ LaxConsistent(o.val.forgot) /\ Iso(Strictify(o.val.forgot), r)
+         /\ (DepAcyclic(r) /\ SingleWriter(r) /\ CopyLike(f) /\ NodeAcyclic(f) =>
+               \A i \in 1 .. Len(a.inputs) : o.val.outs[i].tag = "some" /\ o.val.outs[i].val = EvalVarRef(f, a.inputs[i]))
     [] op = "var.forget" \/ op = "var.forget_monogamous" ->
          LET f == Strictify(a.f)  r == ForgetRef(f, op = "var.forget_monogamous") IN
          /\ IsVal(o) /\ WFLax(o.val) /\ LaxConsistent(o.val) /\ Iso(Strictify(o.val), r)
@@ -476,7 +484,7 @@ StrictOps == {"hyper.coequalize_vertices", "hyper.coproduct", "hyper.coproduct_a
 GraphOps == {"arrow.is_convex_subgraph", "arrow.is_monomorphism", "arrow.new", "hook.converse", "hook.indegree", "hook.kahn", "hook.node_adjacency", "hook.operation_adjacency", "strict.eval", "strict.layer", "strict.layered_operations"}
 FunctorOps == {"functor.identity", "functor.laws", "functor.map_arrow", "functor.map_object", "laxf.dyn_map_arrow", "laxf.identity", "laxf.map_arrow_witness", "laxf.try_define_map_arrow"}
 OpticOps == {"laxf.optic_map_adapted", "laxf.optic_map_arrow", "optic.eval_adapted", "optic.laws", "optic.map_adapted", "optic.map_arrow"}
-VarOps == {"var.forget", "var.forget_eval", "var.forget_monogamous", "var.script"}
+VarOps == {"var.script_eval", "var.forget", "var.forget_eval", "var.forget_monogamous", "var.script"}
 LaxOps == {"lax.reset", "lax.set_interfaces", "lax.add_edge_source", "lax.add_edge_target", "lax.append", "lax.compose", "lax.compose_shr", "lax.dagger", "lax.delete_edges", "lax.delete_nodes", "lax.empty", "lax.from_strict", "lax.h.coequalizer", "lax.h.coproduct_assign", "lax.h.delete_edge", "lax.h.delete_nodes", "lax.h.delete_nodes_witness", "lax.h.quotient", "lax.h.to_hypergraph", "lax.half_spider", "lax.identity", "lax.is_strict", "lax.lax_compose", "lax.map_edges", "lax.map_nodes", "lax.new_edge", "lax.new_node", "lax.new_operation", "lax.quotient", "lax.quotient_witness", "lax.roundtrip_lax", "lax.roundtrip_strict", "lax.serde_roundtrip", "lax.singleton", "lax.source", "lax.spider", "lax.target", "lax.tensor", "lax.tensor3", "lax.tensor_assign", "lax.tensor_bitor", "lax.to_open_hypergraph", "lax.to_strict", "lax.twist", "lax.unify", "lax.with_edges", "lax.with_nodes"}
 ConfEvent(st, ev) ==
   LET op == ev.op  a == ev.args  o == ev.obs IN
